@@ -285,3 +285,169 @@ Proof.
     rewrite (rstrip_cons_nonspace bang b eq_refl). simpl. reflexivity.
   - unfold pass1 at 1. unfold strip. rewrite <- (app_nil_r a), L. simpl. reflexivity.
 Qed.
+
+(* ================================================================== the repaired code (F41: merge_fixed, F40: define_header true) *)
+(* ---- F41: wherever the code as it was returns a result, the repaired code returns the same *)
+Lemma absorb_fixed_agrees : forall d rm rest cur c r,
+  absorb d rm cur rest = Some (c, r) -> absorb_fixed d rm cur rest = (c, r).
+Proof.
+  induction rest as [|x rest IH]; intros cur c r H; simpl in *.
+  - destruct (ends_with d cur); [discriminate|now inversion H].
+  - destruct (ends_with d cur); [now apply IH|now inversion H].
+Qed.
+
+Lemma merge_raw_fixed_agrees : forall fuel d rm ls out,
+  merge_raw fuel d rm ls = Some out -> merge_raw_fixed fuel d rm ls = out.
+Proof.
+  induction fuel as [|f IH]; intros d rm ls out H; simpl in *; [now inversion H|].
+  destruct ls as [|x [|y rest]]; [now inversion H|now inversion H|].
+  destruct (absorb d rm x (y :: rest)) as [[c r]|] eqn:A; [|discriminate].
+  rewrite (absorb_fixed_agrees _ _ _ _ _ _ A).
+  destruct (merge_raw f d rm r) as [o|] eqn:M; [|discriminate].
+  inversion H; subst. now rewrite (IH _ _ _ _ M).
+Qed.
+
+Theorem merge_fixed_agrees : forall d rm ls out,
+  merge_continued d rm ls = Some out -> merge_continued_fixed d rm ls = Some out.
+Proof.
+  intros d rm ls out H. unfold merge_continued in H. unfold merge_continued_fixed, merge_fixed.
+  destruct (merge_raw (length ls) d rm ls) as [o|] eqn:M; [|discriminate].
+  inversion H; subst. now rewrite (merge_raw_fixed_agrees _ _ _ _ _ M).
+Qed.
+
+(* ...hence the inverse law of continuation splitting carries over *)
+Theorem merge_split_inverse_fixed : forall d rm ps,
+  Forall (well_split d rm) ps ->
+  merge_continued_fixed d rm (concat (map (stmt_lines d rm) ps)) = Some (map strip (map stmt_text ps)).
+Proof. intros d rm ps W. apply merge_fixed_agrees. now apply merge_split_inverse. Qed.
+
+(* the repaired loop cannot run off the end: a result for every input (no IndexError) *)
+Theorem merge_fixed_total : forall d rm ls, exists out, merge_continued_fixed d rm ls = Some out.
+Proof. intros. eexists. reflexivity. Qed.
+
+(* the witnesses of merge_last_line_refuted: the statement that runs into the end of the file is kept, with its mark *)
+Theorem merge_last_line_fixed :
+  merge_continued_fixed comma false [of_s "a,"%string; of_s "b,"%string] = Some [of_s "a,b,"%string] /\
+  merge_continued_fixed comma false [of_s "x"%string; of_s "a,"%string; of_s "b,"%string; of_s "c,"%string]
+    = Some [of_s "x"%string; of_s "a,b,c,"%string] /\
+  merge_continued_fixed amp true [of_s "a &"%string; of_s "b &"%string] = Some [of_s "a b &"%string] /\
+  front_end_fixed [of_s "lat: line = (d, d)"%string; of_s "d: drift,"%string; of_s "L = 1,"%string]
+    = [of_s "lat: line = (d, d)"%string; of_s "d: drift,l = 1,"%string].
+Proof. repeat split; vm_compute; reflexivity. Qed.
+
+(* ---- F40: characters (256 cases each) *)
+Lemma space_not_type : forall c, is_space c = true -> type_char c = false.
+Proof. destruct c as [[] [] [] [] [] [] [] []]; intros H; try reflexivity; discriminate H. Qed.
+Lemma space_not_name : forall c, is_space c = true -> name_char c = false.
+Proof. destruct c as [[] [] [] [] [] [] [] []]; intros H; try reflexivity; discriminate H. Qed.
+
+Lemma take_while_app : forall p (a b : str), forallb p a = true ->
+  match b with [] => True | c :: _ => p c = false end -> take_while p (a ++ b) = a.
+Proof.
+  induction a as [|x a IH]; simpl; intros b Ha Hb.
+  - destruct b as [|c r]; [reflexivity|]. simpl. now rewrite Hb.
+  - apply andb_prop in Ha. destruct Ha as [Hx Ha]. rewrite Hx. f_equal. now apply IH.
+Qed.
+Lemma drop_while_app : forall p (a b : str), forallb p a = true ->
+  match b with [] => True | c :: _ => p c = false end -> drop_while p (a ++ b) = b.
+Proof.
+  induction a as [|x a IH]; simpl; intros b Ha Hb.
+  - destruct b as [|c r]; [reflexivity|]. simpl. now rewrite Hb.
+  - apply andb_prop in Ha. destruct Ha as [Hx Ha]. rewrite Hx. now apply IH.
+Qed.
+
+Lemma head_of_spaces_then : forall (p : ascii -> bool) sp c (rest : str),
+  (forall x, is_space x = true -> p x = false) -> p c = false -> forallb is_space sp = true ->
+  match sp ++ c :: rest with [] => True | x :: _ => p x = false end.
+Proof.
+  intros p sp c rest Hs Hc H. destruct sp as [|x sp]; simpl; [exact Hc|].
+  simpl in H. apply andb_prop in H. apply Hs. tauto.
+Qed.
+
+(* the head of a definition written  NAME s1 : s2 TYPE sp , REST  (s1, s2, sp: white space) *)
+Definition def_line (name s1 s2 ty sp rest : str) : str := name ++ s1 ++ colon :: s2 ++ ty ++ sp ++ comma :: rest.
+
+Lemma define_header_prefix : forall fx name s1 s2 ty tail,
+  name <> [] -> forallb name_char name = true -> ty <> [] -> forallb type_char ty = true ->
+  forallb is_space s1 = true -> forallb is_space s2 = true ->
+  match tail with [] => True | x :: _ => type_char x = false end ->
+  define_header fx (name ++ s1 ++ colon :: s2 ++ ty ++ tail) =
+  match define_tail (if fx then drop_while is_space tail else tail) with
+  | Some props => Some (name, ty, props)
+  | None => None
+  end.
+Proof.
+  intros fx name s1 s2 ty tail Hn Hnc Ht Htc H1 H2 Htail. unfold define_header.
+  assert (Hcolon : match s1 ++ colon :: s2 ++ ty ++ tail with [] => True | x :: _ => name_char x = false end).
+  { apply head_of_spaces_then; [exact space_not_name|reflexivity|exact H1]. }
+  rewrite (take_while_app name_char name _ Hnc Hcolon), (drop_while_app name_char name _ Hnc Hcolon).
+  rewrite (drop_while_app is_space s1 (colon :: s2 ++ ty ++ tail) H1 eq_refl).
+  destruct name as [|n0 name']; [congruence|].
+  change (Ascii.eqb colon colon) with true. cbv iota.
+  assert (Hty : match ty ++ tail with [] => True | x :: _ => is_space x = false end).
+  { destruct ty as [|t0 ty']; [congruence|]. simpl. simpl in Htc. apply andb_prop in Htc. destruct Htc as [Ht0 _].
+    destruct (is_space t0) eqn:E; [|reflexivity]. apply space_not_type in E. congruence. }
+  rewrite (drop_while_app is_space s2 (ty ++ tail) H2 Hty).
+  rewrite (take_while_app type_char ty tail Htc Htail), (drop_while_app type_char ty tail Htc Htail).
+  destruct ty as [|t0 ty']; [congruence|]. reflexivity.
+Qed.
+
+(* repaired: white space between the type and the first comma is accepted, the properties are what follows the comma *)
+Theorem define_header_fixed_space : forall name s1 s2 ty sp rest,
+  name <> [] -> forallb name_char name = true -> ty <> [] -> forallb type_char ty = true ->
+  forallb is_space s1 = true -> forallb is_space s2 = true -> forallb is_space sp = true -> existsb newline rest = false ->
+  define_header true (def_line name s1 s2 ty sp rest) = Some (name, ty, Some rest).
+Proof.
+  intros name s1 s2 ty sp rest Hn Hnc Ht Htc H1 H2 Hsp Hr. unfold def_line.
+  rewrite (define_header_prefix true name s1 s2 ty (sp ++ comma :: rest) Hn Hnc Ht Htc H1 H2).
+  - rewrite (drop_while_app is_space sp (comma :: rest) Hsp eq_refl). simpl. now rewrite Hr.
+  - apply head_of_spaces_then; [exact space_not_type|reflexivity|exact Hsp].
+Qed.
+
+(* as it was: accepted without white space in front of the comma, and only then (F40) *)
+Theorem define_header_nospace : forall name s1 s2 ty rest,
+  name <> [] -> forallb name_char name = true -> ty <> [] -> forallb type_char ty = true ->
+  forallb is_space s1 = true -> forallb is_space s2 = true -> existsb newline rest = false ->
+  define_header false (def_line name s1 s2 ty [] rest) = Some (name, ty, Some rest).
+Proof.
+  intros name s1 s2 ty rest Hn Hnc Ht Htc H1 H2 Hr. unfold def_line.
+  rewrite (define_header_prefix false name s1 s2 ty ([] ++ comma :: rest) Hn Hnc Ht Htc H1 H2); [|reflexivity].
+  simpl. now rewrite Hr.
+Qed.
+
+Theorem define_header_space_refuted : forall name s1 s2 ty sp rest,
+  name <> [] -> forallb name_char name = true -> ty <> [] -> forallb type_char ty = true ->
+  forallb is_space s1 = true -> forallb is_space s2 = true -> forallb is_space sp = true -> sp <> [] ->
+  define_header false (def_line name s1 s2 ty sp rest) = None.
+Proof.
+  intros name s1 s2 ty sp rest Hn Hnc Ht Htc H1 H2 Hsp Hne. unfold def_line.
+  rewrite (define_header_prefix false name s1 s2 ty (sp ++ comma :: rest) Hn Hnc Ht Htc H1 H2).
+  - destruct sp as [|x sp]; [congruence|]. simpl. simpl in Hsp. apply andb_prop in Hsp. destruct Hsp as [Hx _].
+    replace (Ascii.eqb x comma) with false; [reflexivity|].
+    destruct x as [[] [] [] [] [] [] [] []]; try reflexivity; discriminate Hx.
+  - apply head_of_spaces_then; [exact space_not_type|reflexivity|exact Hsp].
+Qed.
+
+(* the repair changes nothing where the pattern matched before *)
+Lemma drop_space_tail : forall r p, define_tail r = Some p -> drop_while is_space r = r.
+Proof.
+  intros [|c r] p H; [reflexivity|]. simpl in *. destruct (Ascii.eqb c comma) eqn:E; [|discriminate].
+  apply Ascii.eqb_eq in E. subst c. reflexivity.
+Qed.
+Theorem define_header_fixed_agrees : forall line r, define_header false line = Some r -> define_header true line = Some r.
+Proof.
+  intros line r H. unfold define_header in *.
+  destruct (take_while name_char line) as [|n0 nm]; [discriminate|].
+  destruct (drop_while is_space (drop_while name_char line)) as [|c r2]; [discriminate|].
+  destruct (Ascii.eqb c colon); [|discriminate].
+  destruct (take_while type_char (drop_while is_space r2)) as [|t0 ty]; [discriminate|].
+  destruct (define_tail (drop_while type_char (drop_while is_space r2))) as [p|] eqn:T; [|discriminate].
+  now rewrite (drop_space_tail _ _ T), T.
+Qed.
+
+Example define_header_examples :
+  define_header false (of_s "q: quad , l = 0.1, k1 = 2"%string) = None /\
+  define_header true (of_s "q: quad , l = 0.1, k1 = 2"%string) = Some (of_s "q"%string, of_s "quad"%string, Some (of_s " l = 0.1, k1 = 2"%string)) /\
+  define_header true (of_s "m.1 :mark"%string) = Some (of_s "m.1"%string, of_s "mark"%string, None) /\
+  define_header true (of_s "lat: line = (a, b)"%string) = None.
+Proof. repeat split; vm_compute; reflexivity. Qed.
